@@ -562,24 +562,28 @@ Definition tbl_nonzero_b {K} (tbl : list (K * N)) : bool := forallb (fun p => ne
 
 (** * The judge *)
 Record case := mkCase {
-  c_full : bool; c_univ : universe; c_ops : list op;
+  c_full : bool;
+  c_strict : bool;     (* the blocks were sealed by the REAL executor: an ill-formed block is itself a violation *)
+  c_univ : universe; c_ops : list op;
   c_trace : list (N * obs);                (* implementation: result code and observation after every step *)
   c_hash_tbl : list (header * N); c_root_tbl : list (list N * N) }.
 
-(** property on the implementation's own trace.  [wf]: all persists so far were well-formed
-    (otherwise only the frame/lookup agreement is demanded, not the chain invariant) *)
-Fixpoint prop_trace (hh : header -> N) (rt : list N -> N) (U : universe)
+(** property on the implementation's own trace.  [wf]: all persists so far were well-formed;
+    when the driver fabricated an ill-formed block on purpose the property makes no claim from
+    there on ([strict] = false), when the executor sealed it ([strict] = true) that is the
+    violation *)
+Fixpoint prop_trace (hh : header -> N) (rt : list N -> N) (strict : bool) (U : universe)
          (ops : list op) (tr : list (N * obs)) (sp : spec) (wf : bool) (i : N) : verdict :=
   match ops, tr with
   | [], [] => V_ok
   | o :: ro, (code, ob) :: rtr =>
       let wf' := match o with OPersist e => wf && wf_entry_b hh rt sp e | _ => wf end in
       let sp' := spec_step o code sp in
-      if negb wf' then V_ok      (* ill-formed input: the property makes no claim from here on *)
+      if negb wf' then (if strict then V_propfalse i else V_ok)
       else if negb (code_ok o code sp) then V_propfalse i
       else if negb (agrees_b U sp' ob) then V_propfalse i
       else if negb (chain_inv_b hh rt ob) then V_propfalse i
-      else prop_trace hh rt U ro rtr sp' wf' (i + 1)
+      else prop_trace hh rt strict U ro rtr sp' wf' (i + 1)
   | _, _ => V_domain i
   end.
 
@@ -604,7 +608,7 @@ Definition judge_prop (c : case) : verdict :=
   (* the header-hash table must be injective and non-zero (hypotheses of the theorems); the
      Merkle root need not be injective (the library duplicates an odd last leaf) *)
   if negb (tbl_inj_b hdr_eqb (c_hash_tbl c) && tbl_nonzero_b (c_hash_tbl c)) then V_domain 0
-  else prop_trace (oracle_hash (c_hash_tbl c)) (oracle_root (c_root_tbl c)) (c_univ c)
+  else prop_trace (oracle_hash (c_hash_tbl c)) (oracle_root (c_root_tbl c)) (c_strict c) (c_univ c)
                   (c_ops c) (c_trace c) [] true 0.
 Fixpoint first_ok (vs : list verdict) : verdict :=
   match vs with
